@@ -220,7 +220,7 @@ def regenerate_tables():
                         printed = ""
             with open(out_path, "w") as fh:
                 fh.write(printed)
-    text = tb.lean_module(printed, found)
+    text = tb.lean_module(printed, found, REPO)
     target = os.path.join(LEAN, "Tpp", "Generated", "Tables.lean")
     with Lock(os.path.join(BUILD, "locks", "lake.lock")):
         old = open(target).read() if os.path.exists(target) else None
